@@ -5,7 +5,10 @@ PROP = dict(
     technique="TLA+ spec Identity.tla (B3 function vector: TraceID/IsRoot as functions of the typed fields, the configured TraceIdFieldNames/ParentIdFieldNames lists, "
               "the payload layout and the ingestion path) model-checked by TLC; every enumerated input is built through the real constructors "
               "(quick: NewPayload+ExtractMetadata and CoreFieldsUnmarshaler.UnmarshalMsgpFirstEvent on msgpack; thorough adds Payload.UnmarshalJSON, JSON->msgpack via AppendJSONValue, Payload.UnmarshalMsg) "
-              "and Payload.MetaTraceID / MetaRefineryRoot.Value compared with the model",
+              "and Payload.MetaTraceID / MetaRefineryRoot.Value compared with the model; "
+              "TLA+ spec IdentityLive.tla (B1 walk): a live node - the incoming and the peer Router (Router.LnS: mux, middleware, gRPC server) around ONE file-backed config object - whose IDFields lists "
+              "and sampler rules are hot-reloaded (Config.Reload on rewritten files) between requests; TLC-generated Send / Reload / Ack sequences are replayed into it and the span handed to the collector "
+              "(or the event passed upstream) compared with the model after every request",
     design_ref="DESIGN.md §5 C21, §7 C21",
     level_text="TLC enumerates every typing (absent, non-empty string, empty string, number) of two trace-ID fields, two parent-ID fields and meta.trace_id, meta.signal_type in "
                "{absent, log, trace, empty, number}, x the configured orders of TraceIdFieldNames (and a list naming only one of the two fields) and ParentIdFieldNames x payload layouts covering "
@@ -13,13 +16,23 @@ PROP = dict(
                "exactly when meta.trace_id or a configured field holds a non-empty string; the ID is meta.trace_id, else the first configured name (configured order) holding a non-empty string; "
                "root exactly when in a trace, no configured parent field holds a non-empty string and the signal type is not log; the answer is the same for every layout. "
                "Each input is then constructed on the real code and the trace ID and root flag handed to the collector must be the model's; map-based paths are repeated 48 times on fresh maps "
-               "and every answer seen must be the model's (Go map order).",
+               "and every answer seen must be the model's (Go map order). "
+               "Live node (IdentityLive.tla): state = ID-field configuration and rules file in force + per ingest path the (configuration, rules) pair it served its last request under (hidden; makes "
+               "'first request', 'served under this configuration', 'served under another ID-field configuration with the same / other rules' distinct graph nodes, so the replay drives the real routers "
+               "through each history before each request). Reload changes the main file, the rules file or both; Send delivers one event (every subset of the two trace-ID and two parent-ID fields that "
+               "stays outside the known field-order finding) through /1/events (JSON, msgpack), /1/batch (JSON, msgpack), the peer router's /1/batch, OTLP traces over HTTP (protobuf, JSON) and gRPC, "
+               "OTLP logs. TLC checks: in a trace exactly when a name configured WHEN THE EVENT WAS RECEIVED is present, ID = first such name in that order, root exactly when no parent name configured "
+               "then is present and the record is not a log, and the answer is a function of configuration-in-force and event only (not of path, rules or history).",
     level_note="Quick enumerates parent typings {absent, string} and signal types {absent, log, trace}; thorough adds the empty-string parent and empty/number signal types (number-typed parents only in the model-only run). Values are one fixed string per field, one number (7) as the non-string; bin-typed and nested values are not enumerated. Layouts: 6 of the 720 permutations, "
                "chosen so that every relative order of the three ID-deciding fields occurs with the remaining fields around them. Root status of an event without a trace ID is not compared "
                "(it is never handed to the collector). meta.refinery.root supplied by the client is outside the enumeration. "
                "Known deviations of the unchanged tree (payload/map order decides between several trace-ID fields; an empty-string meta.trace_id erases an ID found earlier) are modelled "
-               "as Faithful edges and reported as KNOWN-FINDING; repair in pending_fixes/C21-traceid-configured-order.diff.",
-    assumptions=["bounded: 2 trace-ID names, 2 parent-ID names, one value per typing", "Go map iteration order is exposed by 48 repetitions (a rarer order would be missed)"],
+               "as Faithful edges and reported as KNOWN-FINDING; repair in pending_fixes/C21-traceid-configured-order.diff. "
+               "Live-node stages: one event per request, one destination (one sampler key), one fixed value per field, no meta.trace_id; quick = 2 ID-field configurations x 2 rules files x 5 paths, one path per "
+               "walk; thorough = 5 configurations (renames of either list, both, two names per list) x 2 rules files x 10 paths (one file per reload) and a second graph with two paths per walk (cross-path "
+               "histories). Each Reload is the real file load + validation (5-60 ms), so these graphs are replayed under a time box with a seed-randomised choice of uncovered edges (evidence: edge groups "
+               "replayed / total). Collector, sharder (every trace local) and transmissions are stubs; reloads and requests never overlap (concurrent reload is C27/C35 territory).",
+    assumptions=["bounded: 2 trace-ID names, 2 parent-ID names, one value per typing", "live node: requests and reloads are sequential; one event per request; stub collector/sharder/transmissions", "Go map iteration order is exposed by 48 repetitions (a rarer order would be missed)"],
     stages=[
         dict(kind="walk", name="Identity", module="Identity", pkg="types", test="TestVerifC21Identity", harness=["types/c21_identity_test.go"],
              cfg={"quick": "MC_Identity.cfg", "thorough": "MC_Identity_big.cfg"}, budget={"quick": 40, "thorough": 300}, maxwalk=4),
@@ -28,9 +41,9 @@ PROP = dict(
         dict(kind="walk", name="IdentityKeys", module="Identity", pkg="types", test="TestVerifC21Identity", harness=["types/c21_identity_test.go"],
              cfg={"quick": "MC_Identity_keys.cfg", "thorough": "MC_Identity_keys.cfg"}, budget={"quick": 40, "thorough": 120}, maxwalk=4, tiers=("thorough",)),
         dict(kind="walk", name="IdentityLive", module="IdentityLive", pkg="route", test="TestVerifC21Live", harness=["route/c21_live_test.go"],
-             cfg={"quick": "MC_IdentityLive.cfg", "thorough": "MC_IdentityLive_big.cfg"}, budget={"quick": 25, "thorough": 150}, maxwalk=48),
+             cfg={"quick": "MC_IdentityLive.cfg", "thorough": "MC_IdentityLive_big.cfg"}, budget={"quick": 20, "thorough": 120}, maxwalk=48),
         dict(kind="walk", name="IdentityLivePairs", module="IdentityLive", pkg="route", test="TestVerifC21Live", harness=["route/c21_live_test.go"],
-             cfg={"quick": "MC_IdentityLive_pairs.cfg", "thorough": "MC_IdentityLive_pairs.cfg"}, budget={"quick": 30, "thorough": 120}, maxwalk=48, tiers=("thorough",)),
+             cfg={"quick": "MC_IdentityLive_pairs.cfg", "thorough": "MC_IdentityLive_pairs.cfg"}, budget={"quick": 30, "thorough": 90}, maxwalk=48, tiers=("thorough",)),
         dict(kind="tlc", name="IdentityIdeal", module="Identity", cfg={"quick": None, "thorough": "MC_Identity_ideal.cfg"}, workers=8),
     ],
 )
